@@ -25,7 +25,11 @@ func VerifInspect(x interface{}) (VerifConsumption, bool) {
 	if !ok || c == nil {
 		return VerifConsumption{}, false
 	}
-	return VerifConsumption{CID: c.cid, Consumer: c.consumer, QueueLen: c.recvQueue.Len(),
+	qlen := -1
+	if c.recvQueue != nil {
+		qlen = c.recvQueue.Len()
+	}
+	return VerifConsumption{CID: c.cid, Consumer: c.consumer, QueueLen: qlen,
 		Closed: c.closed, Discard: c.discarding, Stream: c.stream}, true
 }
 
